@@ -44,6 +44,7 @@ type echServerContext struct {
 }
 
 type serverHandshakeStateTLS13 struct {
+	deferredErr      error // harness: a write error that is reported only after the client Finished was checked
 	pendingClientMsg any // harness: a client message read ahead while looking for the ALPS EncryptedExtensions
 	c               *Conn
 	ctx             context.Context
@@ -1275,7 +1276,12 @@ func (hs *serverHandshakeStateTLS13) readClientCertificate() error {
 		if !hs.requestClientCert() {
 			hs.pendingClientMsg = pending
 			if err := hs.sendSessionTickets(); err != nil {
-				return err
+				// harness: a client that leaves right after its Finished (ech_required) makes this
+				// write fail; its Finished has been received all the same and is verified first
+				if hs.clientFinished == nil {
+					return err
+				}
+				hs.deferredErr = err
 			}
 		}
 	}
@@ -1405,5 +1411,5 @@ func (hs *serverHandshakeStateTLS13) readClientFinished() error {
 
 	c.in.setTrafficSecret(hs.suite, QUICEncryptionLevelApplication, hs.trafficSecret)
 
-	return nil
+	return hs.deferredErr
 }
